@@ -16,6 +16,7 @@ source" are theorems about the one-memory machine (`c16_noninterference`,
 per-operation theorems to it.
 -/
 import Golib.Proof.C16Bank
+import Golib.Proof.C16Trans
 
 namespace Golib.C16
 
@@ -298,5 +299,42 @@ example : ∃ s, HReach goGrow8 [.bits, .bitmap] s ∧ s.heap.length = 3 ∧
   ⟨_, .step _ _ (.add 1 64) _ (.step _ _ (.add 0 1) _ .init rfl) rfl, by decide, by decide⟩
 /-- a resumed iterator (already delivered 63, standing at word 0 bit 63) -/
 example : Iter.drain exWords 10 ⟨0, 63, true⟩ = [64, 65, 128] := by decide
+
+/-! ### Regenerated tie (wave 8): `setz/bits.go` `Bitmap` methods translated by `go2lean`
+
+`Golib.Gen.Trans.C16.Bitmap_*` are regenerated from the tree under verification on every run
+(`Golib/Gen/TransC16.lean`; a pointer receiver is passed and returned as a value).  `ofOpt`/`outOf`
+read the model's `Option` (`none` = Go panic) as the outcome of the translated code, `toModel`
+is the identity on the word list. -/
+
+/-- TIE: `(*Bitmap).Contains` as translated = the model's `Bitmap.contains`, for every word list
+and every `uint` argument. -/
+theorem c16_trans_Bitmap_Contains (b : GBitmap) (num : BitVec 64) :
+    Golib.Gen.Trans.C16.Bitmap_Contains b num = ofOpt ((toModel b).contains num.toNat) :=
+  trans_contains b num
+
+/-- TIE: `(*Bitmap).Remove` as translated = the model's `Bitmap.remove` (result and updated receiver). -/
+theorem c16_trans_Bitmap_Remove (b : GBitmap) (num : BitVec 64) :
+    Golib.Gen.Trans.C16.Bitmap_Remove b num = outOf ((toModel b).remove num.toNat) :=
+  trans_remove b num
+
+/-- TIE: `(*Bitmap).Add` as translated = the model's `Bitmap.add`, growth branch included
+(`append(b.set, make([]uint64, grow)...)`). -/
+theorem c16_trans_Bitmap_Add (b : GBitmap) (num : BitVec 64) :
+    Golib.Gen.Trans.C16.Bitmap_Add b num = outOf ((toModel b).add num.toNat) :=
+  trans_add b num
+
+/-- TIE: `(*Bitmap).Len` as translated (a `range` loop over `bits.OnesCount64`) = the model's
+`Bitmap.len`; the fuel `len(b.set) + 1` always suffices. -/
+theorem c16_trans_Bitmap_Len (b : GBitmap) :
+    Golib.Gen.Trans.C16.Bitmap_Len b = .ok ((toModel b).len) :=
+  trans_len b
+
+/-- Non-vacuity: adding 70 to the empty bitmap grows it to two words and sets bit 6 of word 1. -/
+example : Golib.Gen.Trans.C16.Bitmap_Add ⟨[]⟩ 70#64 = .ok (true, ⟨[0#64, 64#64]⟩) ∧
+    Golib.Gen.Trans.C16.Bitmap_Contains ⟨[0#64, 64#64]⟩ 70#64 = .ok true ∧
+    Golib.Gen.Trans.C16.Bitmap_Len ⟨[0#64, 64#64]⟩ = .ok 1 := by
+  refine ⟨?_, ?_, ?_⟩ <;> decide +kernel
+
 
 end Golib.C16
